@@ -39,7 +39,12 @@ def check_c13(tier):
                 fp = os.path.join(d, p["file"])
                 if c["fm"] == "nonutf8" and p["file"] == "test_.py":
                     with open(fp, "wb") as fh:
-                        fh.write(b"\xff\xfe\x00bad" + (FILE_TMPL % (i, i, i)).encode())
+                        if i % 2:
+                            fh.write(b"\xff\xfe\x00bad" + (FILE_TMPL % (i, i, i)).encode())
+                        else:
+                            # a legacy-encoded file: one Latin-1 byte inside a COMMENT -- not valid UTF-8 as a whole, although
+                            # the text would parse if the byte were replaced
+                            fh.write((FILE_TMPL % (i, i, i)).encode() + b"# caf\xe9 au lait\n")
                 elif c["fm"] == "dangling" and p["file"] == "_test.py":
                     os.symlink(os.path.join(d, "does_not_exist_%d" % i), fp)
                 else:
@@ -238,14 +243,28 @@ def c08_own_imports(V, tier):
             ln, cs, ce = files["ti"].use_pos[(it_idx, "p", j)]
             queries.append({"op": "goto", "path": uni.paths["ti"], "line": ln - 1, "col": cs})
         queries.append({"op": "available", "path": uni.paths["ti"]})
+        # a sibling TEST module in the importing module's directory requests the same names without importing them; the
+        # references of every definition are part of the snapshot
+        tsib = os.path.join(root, "R", "test_sibling.py")
+        tsib_text = "def test_sibling(%s):\n    pass\n" % ", ".join(names)
+        with open(tsib, "w") as fh:
+            fh.write(tsib_text)
+        col = len("def test_sibling(")
+        for nm in names:
+            queries.append({"op": "goto", "path": tsib, "line": 0, "col": col})
+            col += len(nm) + 2
+        for s, m in c["ws"].items():
+            for i2, it in enumerate(m["items"]):
+                if it["k"] == "def":
+                    queries.append({"op": "refs", "path": uni.paths[s], "line1": files[s].item_line[i2 + 1], "name": it["name"]})
         for k, first in enumerate((True, False)):
-            seq = [("sib", sib, sib_text)] if first else []
+            seq = [("sib", sib, sib_text), ("tsib", tsib, tsib_text)] if first else []
             seq += [(s, uni.paths[s], files[s].text) for s in order]
             if not first:
-                seq.append(("sib", sib, sib_text))
+                seq += [("tsib", tsib, tsib_text), ("sib", sib, sib_text)]
             ops = [{"op": "analyze", "path": p, "text": t} for _, p, t in seq] + queries
             hcases.append({"id": 2 * n + k, "ops": ops})
-        ctx[n] = (c, root, len(order) + 1, {s: f.text for s, f in files.items()})
+        ctx[n] = (c, root, len(order) + 2, {s: f.text for s, f in files.items()})
     res = {r["id"]: r["res"] for r in C.run_harness(hcases, threads=8)}
     for n, (c, root, nan, texts) in ctx.items():
         a, b = res[2 * n][nan:], res[2 * n + 1][nan:]
@@ -254,14 +273,14 @@ def c08_own_imports(V, tier):
 
         def norm(x):
             if isinstance(x, list):
-                return sorted((d.get("name"), os.path.relpath(d.get("file", "?"), root), d.get("line")) for d in x)
+                return sorted((d.get("name"), os.path.relpath(d.get("file", "?"), root), d.get("line"), d.get("sc")) for d in x)
             if isinstance(x, dict) and "file" in x:
                 return (os.path.relpath(x["file"], root), x.get("line"))
             return x
         na, nb = [norm(x) for x in a], [norm(x) for x in b]
         if na != nb:
             k = next(i for i in range(len(na)) if na[i] != nb[i])
-            V.violation({"import_shape": c["shape"], "query": (names + ["available fixtures of the test module"])[k],
+            V.violation({"import_shape": c["shape"], "query_number": k,
                          "sibling_conftest_analysed_first": na[k], "sibling_conftest_analysed_last": nb[k],
                          "files": dict(texts, **{"R/other/conftest.py": sib_text})},
                         "answers for a test module that imports fixtures itself depend on the registration order of an unrelated "
